@@ -575,6 +575,7 @@ package proxy
 //@ extern strings.TrimPrefix
 //@   pure
 //@   ensures prefix == "" ==> result == s
+//@   ensures s == "" ==> result == ""
 //@ // documented form of URL.String: "scheme:" first when a scheme is set (assumed)
 //@ extern (*net/url.URL).String
 //@   ensures u.Scheme != "" ==> len(result) >= len(u.Scheme) + 1
@@ -582,7 +583,8 @@ package proxy
 //@   pure
 //@ func NewSingleHostReverseProxy$1$1
 //@   pure
-//@   ensures result == val || (val == "" && result == def)
+//@   ensures (val != "" ==> result == val) && (val == "" ==> result == def)
+//@ define rawT() string = strings.TrimPrefix(old(req.URL.RawPath), without)
 //@ func NewSingleHostReverseProxy$1
 //@   requires req != nil && req.URL != nil && target != nil && target != req.URL
 //@   modifies URL.Scheme, URL.Host, URL.Path, URL.Opaque, URL.RawPath, URL.RawQuery
@@ -590,6 +592,11 @@ package proxy
 //@   ensures [srv_backends_speak_http_or_https] (target.Scheme == "srv" ==> req.URL.Scheme == "http") && (target.Scheme == "srv+https" ==> req.URL.Scheme == "https")
 //@   ensures [path_is_base_path_joined_with_request_path_less_the_without_prefix] target.Scheme != "unix" ==> req.URL.Path == singleJoiningSlash(target.Path, strings.TrimPrefix(old(req.URL.Path), without))
 //@   ensures [query_is_backend_query_then_request_query] ((targetQuery == "" || old(req.URL.RawQuery) == "") ==> req.URL.RawQuery == targetQuery + old(req.URL.RawQuery)) && ((targetQuery != "" && old(req.URL.RawQuery) != "") ==> req.URL.RawQuery == targetQuery + "&" + old(req.URL.RawQuery))
+//@   // the ESCAPED form follows the same rule as the path whenever either side has one (net/url re-escapes the path when
+//@   // RawPath does not decode to it, so a raw path left behind turns %2F into / on the way to the backend)
+//@   ensures [escaped_path_both_sides] (target.Scheme != "unix" && rawT() != "" && target.RawPath != "") ==> req.URL.RawPath == singleJoiningSlash(target.RawPath, rawT())
+//@   ensures [escaped_path_request_side_only] (target.Scheme != "unix" && rawT() != "" && target.RawPath == "") ==> req.URL.RawPath == singleJoiningSlash(target.Path, rawT())
+//@   ensures [escaped_path_backend_side_only] (target.Scheme != "unix" && rawT() == "" && target.RawPath != "") ==> req.URL.RawPath == singleJoiningSlash(target.RawPath, strings.TrimPrefix(old(req.URL.Path), without))
 //@   ensures [no_opaque_or_raw_path_invented] (target.Scheme != "unix" && old(req.URL.Opaque) == "" && target.Opaque == "") ==> req.URL.Opaque == ""
 
 //@ unit trailers frames=on props=C04 nilchecks=on filter=`proxy\.shallowCopyTrailers$`
